@@ -9,7 +9,7 @@ MSG_HOSTILE = ["garbage", "empty", "short_tx", "chal", "resp_bad", "blocktag", "
                "chainreq", "chainreq_far", "chainreq_zero", "hash_known", "hash_zero", "hash_far", "hash_unknown", "ping", "spv",
                "services", "services_bad", "ghostreq", "ghostreq_far", "ghost_empty", "ghost_fake", "api", "api_result", "api_error",
                "keylist", "keylist_big"]
-FETCHED_HOSTILE = ["garbage", "empty", "truncated", "wrong_hash", "wrong_id", "badsig", "bad_tx", "dup_input_first", "gt_payload",
+FETCHED_HOSTILE = ["garbage", "empty", "truncated", "wrong_hash", "wrong_id", "badsig", "bad_tx", "bad_tx_peer_id", "dup_input_first", "gt_payload",
                    "no_txs", "spv_tx", "fee_forged", "far_orphan", "id_zero"]
 
 
